@@ -7,7 +7,7 @@ import time
 import numpy as np
 
 from .. import opcat_nn as cat
-from ..harness import OpCase, T, elem_names, sig_of
+from ..harness import OpCase, T, elem_names, sig_of, gradof, set_grad
 from ..symnum import engine as E
 from .. import runner
 
@@ -128,8 +128,8 @@ class SharedLayerCase:
             gs[k] = g
             ys[k].backward(Tn(g))
         out.vjp = dict(outs=[ys[k].data for k in order], gs=[gs[k] for k in order],
-                       inputs=[("x%d" % k, x.data, x._grad, True) for k, x in enumerate(xs)] +
-                              [(lab, t.data, t._grad, True) for lab, t, _ in params])
+                       inputs=[("x%d" % k, x.data, gradof(x), True) for k, x in enumerate(xs)] +
+                              [(lab, t.data, gradof(t), True) for lab, t, _ in params])
         names = {"x%d" % k: elem_names("x%d" % k, shape) for k in range(len(xs))}
         names.update({lab: elem_names(lab, sh) for lab, t, sh in params})
         out.notes["names"] = names
